@@ -53,7 +53,7 @@ class Unit:
         self.r = new_unit(name)
         self.timeout_ms = timeout_ms
         self.max_cex = 2
-        self.max_unknown = 3
+        self.max_unknown = 2
 
     # -- exploration bookkeeping ------------------------------------------
     def absorb(self, ex, paths):
